@@ -9,7 +9,7 @@ Open Scope N_scope.
 
 Definition mk_info (tr me : string) (dflt unmock clone : bool) : minfo :=
   {| mi_trait := tr; mi_method := me; mi_has_default := dflt; mi_partial_by_default := false;
-     mi_has_unmock_arm := unmock; mi_out_clone := clone |}.
+     mi_has_unmock_arm := unmock; mi_out_clone := clone; mi_more_leaves := 0 |}.
 
 Definition hinfo (m : N) : minfo :=
   match m with
@@ -24,7 +24,10 @@ Definition hinfo (m : N) : minfo :=
   (* mock::std::process::TerminationMock::report: partial by default; the
      hand-written impl in lib.rs handles Unmock by running the real report *)
   | 8 => {| mi_trait := "Termination"; mi_method := "report"; mi_has_default := false;
-            mi_partial_by_default := true; mi_has_unmock_arm := true; mi_out_clone := true |}
+            mi_partial_by_default := true; mi_has_unmock_arm := true; mi_out_clone := true; mi_more_leaves := 0 |}
+  (* trait P: `fn mt(&self, a: u8) -> (Uniq, &str, Uniq)`: a single-use response is TWO single-use slots, taken one after the other *)
+  | 9 => {| mi_trait := "P"; mi_method := "mt"; mi_has_default := false; mi_partial_by_default := false;
+            mi_has_unmock_arm := false; mi_out_clone := false; mi_more_leaves := 1 |}
   (* trait D: delegation and unmocking inventory (harness/core/src/inventory.rs) *)
   | 10 => mk_info "D" "r0" false true true
   | 11 => mk_info "D" "r1" false false true
